@@ -65,6 +65,15 @@ Cut(s, k) == IF s = <<>> THEN <<>> ELSE [d \in 1 .. k |-> s[d]]
 Uniq(s) == \A i, j \in DOMAIN s : i # j => s[i] # s[j]
 ZeroVec(nv) == [c \in 1 .. nv |-> 0]
 AllTrue(v) == \A k \in DOMAIN v : v[k]
+RECURSIVE SumComp(_, _, _)
+SumComp(arr, cc, k) == IF k = 0 THEN 0 ELSE arr[k][cc] + SumComp(arr, cc, k - 1)
+RECURSIVE JoinStr(_, _)
+JoinStr(ss, k) == IF k = 0 THEN "" ELSE IF k = 1 THEN ss[1] ELSE JoinStr(ss, k - 1) \o "," \o ss[k]
+JoinInts(v) == JoinStr([i \in DOMAIN v |-> ToString(v[i])], Len(v))
+(* the text of p / q in lowest terms, q > 0 *)
+RatText(p, q) == LET g == GCD(Abs(p), q)  m == Abs(p) \div g IN (IF p < 0 THEN "-" ELSE "") \o ToString(m) \o "/" \o ToString(q \div g)
+(* C06: the mean is the sum over ALL cells (valid or not) divided by their number, component by component *)
+MeanText(fo) == "m:" \o JoinStr([cc \in 1 .. fo.nv |-> RatText(SumComp(fo.arr, cc, Len(fo.arr)), Len(fo.arr))], fo.nv)
 MaxAbs(arr) == MaxSet({0} \cup {Abs(arr[k][c]) : k \in DOMAIN arr, c \in 1 .. Len(arr[1])})
 DefLab(nv) == IF nv = 1 THEN <<>> ELSE IF nv <= 3 THEN SubSeq(<<"x", "y", "z">>, 1, nv) ELSE [c \in 1 .. nv |-> "v" \o ToString(c - 1)]
 (* the Field constructor's default mapping (documented API): components onto the axes when the counts agree *)
@@ -121,8 +130,12 @@ PersistOps == {"h5", "ovf", "vtk", "xarray"}
 ValidOps   == {"setvalid", "mutatevalid"}
 UpdateOps  == {"updateconst", "setarray", "fromfield", "writearray"}
 (* queries: the heap stays as it is, the answer is the outcome ("true" / "false"; "reject" when the library raises) *)
-QueryOps   == {"q_meshclose", "q_fieldclose", "q_regionin", "q_aligned"}
-FieldMakers == AlgebraOps \cup SelOps \cup PersistOps \cup {"diff", "mkfield", "integrate"}
+(* q_eq: f == g (exact comparison); q_mean: f.mean() (the answer is the text of the exact rationals);            *)
+(* q_call: f(centre of a cell) (the text of the cell's values)                                                    *)
+BinQueryOps == {"q_meshclose", "q_fieldclose", "q_regionin", "q_aligned", "q_eq"}
+QueryOps   == BinQueryOps \cup {"q_mean", "q_call"}
+LabelOps   == {"setvdims"}                      \* f.vdims = [...]: renames the components in place
+FieldMakers == AlgebraOps \cup SelOps \cup PersistOps \cup {"diff", "mkfield", "integrate", "mean"}
 
 (* ---- variables of the user ------------------------------------------------------------- *)
 FVseq == <<"f", "g", "h">>
@@ -374,7 +387,7 @@ InModel(h, rts, c) ==
                 [] c.op \in LengthOps -> TRUE
                 (* an even cell count puts the region centre on a face: which of the two central cells the plane goes through, *)
                 (* hence which subregions come along, is decided by rounding - outside the model when there are subregions   *)
-                [] c.op = "integrate" -> nd >= 2 /\ c.a.d \in 1 .. nd /\ (n[c.a.d] % 2 = 1 \/ FM(h, o).sub = <<>>)
+                [] c.op \in {"integrate", "mean"} -> nd >= 2 /\ c.a.d \in 1 .. nd /\ (n[c.a.d] % 2 = 1 \/ FM(h, o).sub = <<>>)
                 [] c.op = "fromfield" ->
                       /\ c.y \in DOMAIN rts /\ IsF(h, rts[c.y]) /\ rts[c.y] # o
                       /\ LET g == rts[c.y] IN
@@ -382,8 +395,14 @@ InModel(h, rts, c) ==
                            /\ ~CentreOnSrcFace(h, o, g)
                 [] c.op = "setsub" -> Len(c.a.a) = nd /\ Len(c.a.b) = nd /\ \A d \in 1 .. nd : 0 <= c.a.a[d] /\ c.a.a[d] <= c.a.b[d] /\ c.a.b[d] <= n[d]
                 [] c.op = "mulnum" -> fo.vx => (MaxAbs(fo.arr) <= 100000000 /\ Abs(c.a.c) <= 10)
-                [] c.op \in QueryOps -> /\ c.y \in DOMAIN rts /\ IsF(h, rts[c.y]) /\ Len(FN(h, rts[c.y])) = nd
-                                        /\ (c.op = "q_fieldclose" => fo.vx /\ h[rts[c.y]].vx)
+                [] c.op = "q_mean" -> fo.vx /\ MaxAbs(fo.arr) <= 10000000 /\ Len(fo.arr) <= 64
+                [] c.op = "q_call" -> fo.vx /\ c.a.cell \in DOMAIN fo.arr
+                [] c.op = "setvdims" -> c.a.lab # <<>>
+                [] c.op \in BinQueryOps -> /\ c.y \in DOMAIN rts /\ IsF(h, rts[c.y]) /\ Len(FN(h, rts[c.y])) = nd
+                                           /\ (c.op \in {"q_fieldclose", "q_eq"} => fo.vx /\ h[rts[c.y]].vx)
+                                           (* == compares corners exactly: two mesh objects that are equal only up to rounding *)
+                                           (* are outside what the model decides (as for <<)                                  *)
+                                           /\ (c.op = "q_eq" => (fo.mesh = h[rts[c.y]].mesh \/ ~SameBox(h, o, rts[c.y])))
                 [] c.op = "comp" -> fo.lab # <<>> /\ c.a.c \in 1 .. fo.nv
                 [] c.op = "lshift" ->
                       /\ c.y \in DOMAIN rts /\ IsF(h, rts[c.y])
@@ -442,7 +461,12 @@ Apply(h, rts, c) ==
            Bound(AllocF(h, LAMBDA fid : [h[o] EXCEPT !.vo = fid, !.ao = fid, !.nv = 1, !.arr = [k \in DOMAIN @ |-> <<0>>], !.lab = <<>>, !.map = <<>>, !.mx = TRUE, !.vx = FALSE]), rts, c.dst)
      [] c.op = "orientation" ->
            Bound(AllocF(h, LAMBDA fid : [h[o] EXCEPT !.vo = fid, !.ao = fid, !.arr = [k \in DOMAIN @ |-> ZeroVec(h[o].nv)], !.vx = FALSE]), rts, c.dst)
-     [] c.op = "integrate" -> Bound(IntegrateRes(h, o, c.a.d), rts, c.dst)
+     [] c.op \in {"integrate", "mean"} -> Bound(IntegrateRes(h, o, c.a.d), rts, c.dst)
+     [] c.op = "q_mean" -> [heap |-> h, roots |-> rts, outcome |-> MeanText(h[o])]
+     [] c.op = "q_call" -> [heap |-> h, roots |-> rts, outcome |-> "v:" \o JoinInts(h[o].arr[c.a.cell])]
+     [] c.op = "setvdims" ->
+           IF Len(c.a.lab) # h[o].nv \/ ~Uniq(c.a.lab) THEN Rej(h, rts)
+           ELSE [heap |-> [h EXCEPT ![o].lab = c.a.lab], roots |-> rts, outcome |-> "ok"]
      [] c.op = "fromfield" ->
            LET g == rts[c.y] IN
            IF ~(Covers(h, g, o) /\ h[o].nv = h[g].nv) THEN Rej(h, rts)
@@ -451,7 +475,7 @@ Apply(h, rts, c) ==
            LET m == h[o].mesh  bx == SetSubBox(h, m, c.a)  ro == h[h[m].region]  id == MaxSet(DOMAIN h) + 1 IN
            IF ~SetSubAccepted(h, m, c.a) THEN Rej(h, rts)
            ELSE Ok([Ext(h, id, DReg(bx.lo, bx.hi, ro.units, ro.dims)) EXCEPT ![m].sub = <<id>>, ![m].names = <<"t">>], rts)
-     [] c.op \in QueryOps ->
+     [] c.op \in BinQueryOps ->
            (* f.mesh.allclose(g.mesh), f.allclose(g), g.mesh.region in f.mesh.region, f.mesh.is_aligned(g.mesh): on lattice   *)
            (* coordinates the tolerances of the library (1e-12 relative) decide nothing, the answers are exact                *)
            LET g == rts[c.y]
@@ -460,6 +484,8 @@ Apply(h, rts, c) ==
                ans == CASE c.op = "q_meshclose"  -> meshClose
                         [] c.op = "q_fieldclose" -> meshClose /\ h[o].nv = h[g].nv /\ h[o].arr = h[g].arr
                         [] c.op = "q_regionin"   -> Covers(h, o, g)
+                        [] c.op = "q_eq"         -> /\ meshClose /\ sameDims /\ FR(h, o).units = FR(h, g).units
+                                                    /\ h[o].nv = h[g].nv /\ h[o].arr = h[g].arr
                         [] c.op = "q_aligned"    -> /\ \A d \in DOMAIN FN(h, o) : CellQ(h, o, d) = CellQ(h, g, d)
                                                     /\ \A d \in DOMAIN FN(h, o) : RIsInt(RDiv(RSub(FR(h, g).lo[d], FR(h, o).lo[d]), CellQ(h, o, d)))
            IN IF c.op \in {"q_meshclose", "q_fieldclose"} /\ ~sameDims THEN Rej(h, rts)
@@ -663,7 +689,7 @@ P_SelSubregions(h, rts, h2, rts2, c) ==
       /\ Len(mr.names) <= Len(mo.names)
 (* C06: a directional integral lives on the mesh with that axis removed, with the components, labels of the source *)
 P_Integrate(h, rts, h2, rts2, c) ==
-   (OkStep(c) /\ c.op = "integrate") =>
+   (OkStep(c) /\ c.op \in {"integrate", "mean"}) =>
       LET f == rts[c.x]  g == rts2[c.dst]  rs == FR(h, f)  rr == FR(h2, g)  d == c.a.d IN
       /\ rr.lo = RemoveAt(rs.lo, d) /\ rr.hi = RemoveAt(rs.hi, d) /\ rr.dims = RemoveAt(rs.dims, d) /\ rr.units = RemoveAt(rs.units, d)
       /\ FN(h2, g) = RemoveAt(FN(h, f), d) /\ h2[g].shape = FN(h2, g)
@@ -677,6 +703,10 @@ P_SetSub(h, rts, h2, rts2, c) ==
       /\ h2[h2[m].sub[1]].lo = bx.lo /\ h2[h2[m].sub[1]].hi = bx.hi
       /\ h2[m].n = h[m].n /\ h2[h2[m].region] = h[h[m].region]
       /\ SubsWellFormed(h2, m)
+(* renaming the components changes the labels of that field and nothing else *)
+P_Relabel(h, rts, h2, rts2, c) ==
+   (OkStep(c) /\ c.op = "setvdims") => /\ h2 = [h EXCEPT ![rts[c.x]].lab = c.a.lab] /\ rts2 = rts
+                                       /\ Len(c.a.lab) = h[rts[c.x]].nv /\ Uniq(c.a.lab)
 (* a query answers and modifies nothing *)
 P_QueryPure(h, rts, h2, rts2, c) == c.op \in QueryOps => h2 = h /\ rts2 = rts
 (* C10 / C09 / C16 / C17: a write + read round trip is the identity on the attributes the property lists *)
@@ -724,14 +754,14 @@ StepAll(h, rts, h2, rts2, c) ==
    /\ P_PositionsKept(h, rts, h2, rts2, c) /\ P_CellAligned(h, rts, h2, rts2, c) /\ P_SelSubregions(h, rts, h2, rts2, c)
    /\ P_Persist(h, rts, h2, rts2, c) /\ P_InplaceEqualsCopy(h, rts, h2, rts2, c) /\ P_InplaceReturnsSelf(h, rts, h2, rts2, c)
    /\ P_AffineExact(h, rts, h2, rts2, c) /\ P_Integrate(h, rts, h2, rts2, c) /\ P_SetSub(h, rts, h2, rts2, c)
-   /\ P_QueryPure(h, rts, h2, rts2, c)
+   /\ P_QueryPure(h, rts, h2, rts2, c) /\ P_Relabel(h, rts, h2, rts2, c)
 
 
 (* the step clauses as a set of names of those that fail: `viol` holds it for the last call, so that every   *)
 (* clause is also a plain state invariant (TLC evaluates unprimed operator applications much faster)          *)
 ClauseNames == {"DF_RejectUnchanged", "DF_OperandsUnchanged", "DF_ValidityRule", "DF_SetValid", "DF_Update", "DF_Cellwise",
                 "DF_PositionsKept", "DF_CellAligned", "DF_SelSubregions", "DF_Persist", "DF_InplaceEqualsCopy",
-                "DF_InplaceReturnsSelf", "DF_AffineExact", "DF_Integrate", "DF_SetSub", "DF_QueryPure"}
+                "DF_InplaceReturnsSelf", "DF_AffineExact", "DF_Integrate", "DF_SetSub", "DF_QueryPure", "DF_Relabel"}
 ClauseHolds(nm, h, rts, h2, rts2, c) ==
    CASE nm = "DF_RejectUnchanged"    -> P_RejectUnchanged(h, rts, h2, rts2, c)
      [] nm = "DF_OperandsUnchanged"  -> P_OperandsUnchanged(h, rts, h2, rts2, c)
@@ -749,6 +779,7 @@ ClauseHolds(nm, h, rts, h2, rts2, c) ==
      [] nm = "DF_Integrate"          -> P_Integrate(h, rts, h2, rts2, c)
      [] nm = "DF_SetSub"             -> P_SetSub(h, rts, h2, rts2, c)
      [] nm = "DF_QueryPure"          -> P_QueryPure(h, rts, h2, rts2, c)
+     [] nm = "DF_Relabel"            -> P_Relabel(h, rts, h2, rts2, c)
 Failed(h, rts, h2, rts2, c) == {nm \in ClauseNames : ~ClauseHolds(nm, h, rts, h2, rts2, c)}
 
 (* ---- the actions: one named action per public call ------------------------------------------- *)
@@ -799,6 +830,7 @@ CrossP    == En("Cross") /\ \E x \in FR0, y \in FR0 : \E dst \in Dsts(roots, x) 
 Norm      == En("Norm") /\ \E x \in FR0 : \E dst \in Dsts(roots, x) : Do(MkCall("norm", x, "", dst, "self", FALSE, NoA))
 Orientation == En("Orientation") /\ \E x \in FR0 : \E dst \in Dsts(roots, x) : Do(MkCall("orientation", x, "", dst, "self", FALSE, NoA))
 Integrate == En("Integrate") /\ \E x \in FR0 : \E d \in 1 .. NDx(x), dst \in Dsts(roots, x) : Do(MkCall("integrate", x, "", dst, "self", FALSE, [d |-> d]))
+Mean      == En("Mean") /\ \E x \in FR0 : \E d \in 1 .. NDx(x), dst \in Dsts(roots, x) : Do(MkCall("mean", x, "", dst, "self", FALSE, [d |-> d]))
 FromField == En("FromField") /\ \E x \in FR0, y \in FR0 : Do(MkCall("fromfield", x, y, x, "self", TRUE, NoA))
 (* boxes offered to the setter: first cell .. last cell but one layer (accepted), the same shifted by half a cell and one reaching a cell beyond the mesh (refused) *)
 SubBoxes(n) == {[a |-> [d \in DOMAIN n |-> 0], b |-> [d \in DOMAIN n |-> IF n[d] > 1 THEN n[d] - 2 ELSE 0], sh |-> FALSE],
@@ -810,6 +842,14 @@ QMeshClose  == En("QMeshClose") /\ \E x \in FR0, y \in FR0 : Do(MkCall("q_meshcl
 QFieldClose == En("QFieldClose") /\ \E x \in FR0, y \in FR0 : Do(MkCall("q_fieldclose", x, y, x, "self", FALSE, NoA))
 QRegionIn   == En("QRegionIn") /\ \E x \in FR0, y \in FR0 : Do(MkCall("q_regionin", x, y, x, "self", FALSE, NoA))
 QAligned    == En("QAligned") /\ \E x \in FR0, y \in FR0 : Do(MkCall("q_aligned", x, y, x, "self", FALSE, NoA))
+QEq         == En("QEq") /\ \E x \in FR0, y \in FR0 : Do(MkCall("q_eq", x, y, x, "self", FALSE, NoA))
+QMean       == En("QMean") /\ \E x \in FR0 : Do(MkCall("q_mean", x, "", x, "self", FALSE, NoA))
+QCall       == En("QCall") /\ \E x \in FR0 : \E k \in (IF Rich THEN {1, Len(heap[roots[x]].arr)} ELSE {1}) : Do(MkCall("q_call", x, "", x, "self", FALSE, [cell |-> k]))
+(* labels offered: fresh names, the same in another order, a repeated name and one name too many (refused) *)
+LabelSets(nv) == {SubSeq(<<"a", "b", "c", "d">>, 1, nv), SubSeq(<<"d", "c", "b", "a">>, 1, nv)}
+                 \cup (IF Rich THEN {[i \in 1 .. nv |-> IF i = nv /\ nv > 1 THEN "a" ELSE <<"a", "b", "c", "d">>[i]],
+                                     SubSeq(<<"a", "b", "c", "d", "e">>, 1, nv + 1)} ELSE {})
+SetVdims    == En("SetVdims") /\ \E x \in FR0 : \E ls \in LabelSets(heap[roots[x]].nv) : Do(MkCall("setvdims", x, "", x, "self", TRUE, [lab |-> ls]))
 LShift    == En("LShift") /\ \E x \in FR0, y \in FR0 : \E dst \in Dsts(roots, x) : Do(MkCall("lshift", x, y, dst, "self", FALSE, NoA))
 Diff      == En("Diff") /\ \E x \in FR0 : \E d \in 1 .. NDx(x), dst \in Dsts(roots, x) : Do(MkCall("diff", x, "", dst, "self", FALSE, [d |-> d]))
 SetValidArray == En("SetValidArray") /\ \E x \in FR0, b \in Masks : Do(MkCall("setvalid", x, "", x, "self", TRUE, [kind |-> "array", mask |-> MaskOf(b, Len(heap[roots[x]].valid))]))
@@ -847,7 +887,7 @@ Init == \E sc \in Scenarios :
 Next == \/ Translate \/ Scale \/ MeshRotate90 \/ FieldRotate90 \/ MkField
         \/ Neg \/ Pos \/ Abs_ \/ Add \/ Mul \/ MulNum \/ Comp \/ LShift \/ Diff
         \/ Sub \/ DotP \/ CrossP \/ Norm \/ Orientation \/ Integrate \/ FromField \/ SetSub
-        \/ QMeshClose \/ QFieldClose \/ QRegionIn \/ QAligned
+        \/ QMeshClose \/ QFieldClose \/ QRegionIn \/ QAligned \/ QEq \/ QMean \/ QCall \/ Mean \/ SetVdims
         \/ SetValidArray \/ SetValidNorm \/ SetValidNone \/ MutateValid \/ UpdateConst \/ SetArray \/ WriteArray
         \/ SelPlane \/ SelRange \/ GetSub \/ GetRegion \/ Pad \/ Resample
         \/ H5 \/ Ovf \/ Vtk \/ Xarray
@@ -870,6 +910,7 @@ DF_AffineExact        == [][P_AffineExact(heap, roots, heap', roots', Last')]_va
 DF_Integrate          == [][P_Integrate(heap, roots, heap', roots', Last')]_vars
 DF_SetSub             == [][P_SetSub(heap, roots, heap', roots', Last')]_vars
 DF_QueryPure          == [][P_QueryPure(heap, roots, heap', roots', Last')]_vars
+DF_Relabel            == [][P_Relabel(heap, roots, heap', roots', Last')]_vars
 (* the same clauses as state invariants over `viol` *)
 DF_RejectUnchanged_S    == "DF_RejectUnchanged" \notin viol
 DF_OperandsUnchanged_S  == "DF_OperandsUnchanged" \notin viol
@@ -887,4 +928,5 @@ DF_AffineExact_S        == "DF_AffineExact" \notin viol
 DF_Integrate_S          == "DF_Integrate" \notin viol
 DF_SetSub_S             == "DF_SetSub" \notin viol
 DF_QueryPure_S          == "DF_QueryPure" \notin viol
+DF_Relabel_S            == "DF_Relabel" \notin viol
 =============================================================================
